@@ -34,6 +34,7 @@ DEFAULT_ENV = {
     "enforce_walltime": False,
     "first_job_id": 8100000,
     "p_suspend": 0.0,
+    "op_lat": 0.0,                     # max latency of every seam operation (slow shared file system)
 }
 
 
@@ -112,6 +113,13 @@ class Faults:
                 w.after(0.0, lambda: w.slurm.end_abnormally(j, why), "fault_kill_node")
                 w.request_kill(j.node_vp, "fault:kill_node", True)
                 return
+        ol = w.envk["op_lat"]
+        if ol > 0:
+            # every operation takes a drawn time: other processes make *timed* progress inside
+            # the windows between two operations of this one
+            d = w.ch.delay(0.0, ol, "op_lat", steps=8)
+            if d > 0:
+                w.sleep(vp, d)
         pst = w.envk["p_stall"]
         if pst > 0 and w.ch.flip(pst, "stall"):
             d = w.ch.delay(1.0, w.envk["stall_max"], "stall_len", log=True)
